@@ -1,2 +1,1123 @@
-(* Proofs for property C17. *)
-From SC.Model Require Import Base.
+(* Proofs for property C17 - highlight (UI) tokens are well-formed character spans.
+   Model functions: UiTokens.get_position / check_collision / ui_add / ui_sort / ui_update,
+   their call sites in Lexer.v (every parser body) and Rules.v (variables, units, rules).
+   Spec: Spec/Spans.v (span_ok, disjoint, Inv, sorted_by_start, WF, byte_off). *)
+From SC.Model Require Import Base Num Types Config Case UiTokens Rx RuleFns Rules Lexer Api.
+From SC.Model Require Import NumF64 Run64.
+From SC.Spec Require Import Spans.
+From Coq Require Import Sorting.Sorted Sorting.Permutation.
+
+Local Open Scope N_scope.
+
+(* ================================================================== *)
+(* A. the byte -> character map                                         *)
+(* ================================================================== *)
+Lemma utf8_w_range c : 1 <= utf8_w c <= 4.
+Proof. unfold utf8_w. repeat destruct (N.ltb _ _); lia. Qed.
+
+Lemma byte_off_0 x : byte_off x 0 = 0.
+Proof. reflexivity. Qed.
+
+Lemma byte_off_cons c r i : byte_off (c :: r) (S i) = utf8_w c + byte_off r i.
+Proof. reflexivity. Qed.
+
+Lemma byte_off_all x : byte_off x (length x) = byte_length x.
+Proof. unfold byte_off. now rewrite firstn_all. Qed.
+
+Lemma byte_off_step : forall x i, (i < length x)%nat -> byte_off x i < byte_off x (S i).
+Proof.
+  induction x as [|c r IH]; intros i Hi; [simpl in Hi; lia|].
+  destruct i as [|i].
+  - rewrite byte_off_cons, !byte_off_0. pose proof (utf8_w_range c). lia.
+  - rewrite !byte_off_cons. simpl in Hi. specialize (IH i ltac:(lia)). lia.
+Qed.
+
+Lemma byte_off_mono : forall x i j, (i <= j)%nat -> byte_off x i <= byte_off x j.
+Proof.
+  induction x as [|c r IH]; intros i j Hij.
+  - unfold byte_off. rewrite !firstn_nil. lia.
+  - destruct i as [|i]; [rewrite byte_off_0; lia|].
+    destruct j as [|j]; [lia|]. rewrite !byte_off_cons. specialize (IH i j ltac:(lia)). lia.
+Qed.
+
+Lemma byte_off_le_length x i : byte_off x i <= byte_length x.
+Proof.
+  destruct (Nat.le_gt_cases i (length x)) as [H|H].
+  - rewrite <- byte_off_all. now apply byte_off_mono.
+  - unfold byte_off. rewrite firstn_all2 by lia. lia.
+Qed.
+
+(* every byte of character i maps to i *)
+Lemma cob_inside : forall x i b idx, (i < length x)%nat ->
+  byte_off x i <= b < byte_off x (S i) -> char_of_byte x b idx = Some (idx + N.of_nat i).
+Proof.
+  induction x as [|c r IH]; intros i b idx Hi Hb; [simpl in Hi; lia|].
+  cbn [char_of_byte]. destruct i as [|i].
+  - rewrite byte_off_cons, !byte_off_0 in Hb.
+    replace (N.ltb b (utf8_w c)) with true by (symmetry; apply N.ltb_lt; lia).
+    f_equal. lia.
+  - rewrite !byte_off_cons in Hb.
+    replace (N.ltb b (utf8_w c)) with false by (symmetry; apply N.ltb_ge; lia).
+    simpl in Hi. rewrite (IH i (b - utf8_w c) (idx + 1)) by lia. f_equal. lia.
+Qed.
+
+Lemma cob_none : forall x b idx, byte_length x <= b -> char_of_byte x b idx = None.
+Proof.
+  induction x as [|c r IH]; intros b idx Hb; [reflexivity|].
+  cbn [char_of_byte byte_length] in *.
+  replace (N.ltb b (utf8_w c)) with false by (symmetry; apply N.ltb_ge; lia).
+  apply IH. lia.
+Qed.
+
+Lemma cob_some : forall x b idx p, char_of_byte x b idx = Some p ->
+  b < byte_length x /\ idx <= p < idx + N.of_nat (length x).
+Proof.
+  induction x as [|c r IH]; intros b idx p H; [discriminate|].
+  cbn [char_of_byte byte_length length] in *. pose proof (utf8_w_range c).
+  destruct (N.ltb_spec b (utf8_w c)).
+  - inversion H; subst. lia.
+  - apply IH in H. lia.
+Qed.
+
+Lemma cob_total : forall x b idx, b < byte_length x -> exists p, char_of_byte x b idx = Some p.
+Proof.
+  induction x as [|c r IH]; intros b idx Hb; [cbn in Hb; lia|].
+  cbn [char_of_byte byte_length] in *.
+  destruct (N.ltb_spec b (utf8_w c)); [eauto|]. apply IH. lia.
+Qed.
+
+Lemma cob_mono : forall x b1 b2 idx p1 p2, b1 <= b2 ->
+  char_of_byte x b1 idx = Some p1 -> char_of_byte x b2 idx = Some p2 -> p1 <= p2.
+Proof.
+  induction x as [|c r IH]; intros b1 b2 idx p1 p2 Hb H1 H2; [discriminate|].
+  cbn [char_of_byte] in *.
+  destruct (N.ltb_spec b1 (utf8_w c)).
+  - inversion H1; subst.
+    destruct (N.ltb_spec b2 (utf8_w c)); [inversion H2; lia|].
+    apply cob_some in H2. lia.
+  - destruct (N.ltb_spec b2 (utf8_w c)); [lia|].
+    eapply IH; [|exact H1|exact H2]. lia.
+Qed.
+
+(* get_position (byte offset of character i) = i, for every character index incl. the end *)
+Lemma get_position_char : forall line i, (i <= length line)%nat ->
+  get_position line (byte_off line i) = N.of_nat i.
+Proof.
+  intros line i Hi. unfold get_position.
+  destruct (Nat.eq_dec i (length line)) as [->|Hne].
+  - rewrite byte_off_all, cob_none by lia. now rewrite N.eqb_refl.
+  - assert (Hlt : (i < length line)%nat) by lia.
+    rewrite (cob_inside line i (byte_off line i) 0 Hlt).
+    + lia.
+    + pose proof (byte_off_step line i Hlt). lia.
+Qed.
+
+(* offsets inside a character map to that character *)
+Lemma get_position_inside : forall line i b, (i < length line)%nat ->
+  byte_off line i <= b < byte_off line (S i) -> get_position line b = N.of_nat i.
+Proof.
+  intros line i b Hi Hb. unfold get_position. rewrite (cob_inside line i b 0 Hi Hb). lia.
+Qed.
+
+Lemma get_position_end line : get_position line (byte_length line) = N.of_nat (length line).
+Proof. rewrite <- byte_off_all. now apply get_position_char. Qed.
+
+(* for ALL byte arguments the result is a character position of the line *)
+Lemma get_position_range line b : get_position line b <= N.of_nat (length line).
+Proof.
+  unfold get_position. destruct (char_of_byte line b 0) as [p|] eqn:E.
+  - apply cob_some in E. lia.
+  - destruct (N.eqb _ _); lia.
+Qed.
+
+(* an offset past the end is reported as position 0 (the `log::error!` branch) *)
+Lemma get_position_outside line b : byte_length line < b -> get_position line b = 0.
+Proof.
+  intro H. unfold get_position. rewrite cob_none by lia.
+  replace (N.eqb (byte_length line) b) with false; [reflexivity|].
+  symmetry. apply N.eqb_neq. lia.
+Qed.
+
+Lemma get_position_mono line b1 b2 : b1 <= b2 -> b2 <= byte_length line ->
+  get_position line b1 <= get_position line b2.
+Proof.
+  intros H12 H2. destruct (N.eq_dec b2 (byte_length line)) as [->|Hne].
+  - rewrite get_position_end. apply get_position_range.
+  - unfold get_position.
+    destruct (cob_total line b1 0 ltac:(lia)) as [p1 E1].
+    destruct (cob_total line b2 0 ltac:(lia)) as [p2 E2].
+    rewrite E1, E2. exact (cob_mono line b1 b2 0 p1 p2 H12 E1 E2).
+Qed.
+
+Lemma get_position_strict line i j : (i < j <= length line)%nat ->
+  get_position line (byte_off line i) < get_position line (byte_off line j).
+Proof. intros H. rewrite !get_position_char by lia. lia. Qed.
+
+(* ================================================================== *)
+(* B. list facts                                                        *)
+(* ================================================================== *)
+Section Lists.
+Context {A : Type}.
+Variable R : A -> A -> Prop.
+
+Lemma FOP_cons_iff a l : ForallOrdPairs R (a :: l) <-> Forall (R a) l /\ ForallOrdPairs R l.
+Proof. split; [inversion 1; auto | intros [? ?]; now constructor]. Qed.
+
+Lemma FOP_app l1 l2 : ForallOrdPairs R (l1 ++ l2) <->
+  ForallOrdPairs R l1 /\ ForallOrdPairs R l2 /\ (forall a b, In a l1 -> In b l2 -> R a b).
+Proof.
+  induction l1 as [|x l1 IH]; cbn [app].
+  - split; [intro H; repeat split; [constructor|exact H|intros ? ? []] | tauto].
+  - rewrite !FOP_cons_iff, IH, Forall_app, !Forall_forall. split.
+    + intros [[H1 H2] [H3 [H4 H5]]]. repeat split; auto.
+      intros a b [<-|Ha] Hb; auto.
+    + intros [[H1 H2] [H3 H4]]. repeat split; auto.
+      * intros b Hb. apply H4; [now left|exact Hb].
+      * intros a b Ha Hb. apply H4; [now right|exact Hb].
+Qed.
+
+Lemma SS_cons_iff a l : StronglySorted R (a :: l) <-> Forall (R a) l /\ StronglySorted R l.
+Proof. split; [inversion 1; auto | intros [? ?]; now constructor]. Qed.
+
+Lemma SS_app l1 l2 : StronglySorted R (l1 ++ l2) <->
+  StronglySorted R l1 /\ StronglySorted R l2 /\ (forall a b, In a l1 -> In b l2 -> R a b).
+Proof.
+  induction l1 as [|x l1 IH]; cbn [app].
+  - split; [intro H; repeat split; [constructor|exact H|intros ? ? []] | tauto].
+  - rewrite !SS_cons_iff, IH, Forall_app, !Forall_forall. split.
+    + intros [[H1 H2] [H3 [H4 H5]]]. repeat split; auto.
+      intros a b [<-|Ha] Hb; auto.
+    + intros [[H1 H2] [H3 H4]]. repeat split; auto.
+      * intros b Hb. apply H4; [now left|exact Hb].
+      * intros a b Ha Hb. apply H4; [now right|exact Hb].
+Qed.
+
+Lemma FOP_perm : (forall a b, R a b -> R b a) -> forall l l', Permutation l l' ->
+  ForallOrdPairs R l -> ForallOrdPairs R l'.
+Proof.
+  intros Hsym l l' Hp. induction Hp; intro H.
+  - exact H.
+  - apply FOP_cons_iff in H as [H1 H2]. apply FOP_cons_iff. split; auto.
+    eapply Permutation_Forall; eauto.
+  - apply FOP_cons_iff in H as [H1 H2]. apply FOP_cons_iff in H2 as [H2 H3].
+    inversion H1; subst. apply FOP_cons_iff. split.
+    + constructor; auto.
+    + apply FOP_cons_iff. split; auto.
+  - auto.
+Qed.
+End Lists.
+
+Lemma In_firstn {A} : forall n (l : list A) x, In x (firstn n l) -> In x l.
+Proof. intros n l x H. rewrite <- (firstn_skipn n l). apply in_or_app. now left. Qed.
+
+Lemma In_skipn {A} : forall n (l : list A) x, In x (skipn n l) -> In x l.
+Proof. intros n l x H. rewrite <- (firstn_skipn n l). apply in_or_app. now right. Qed.
+
+Lemma nth_error_in_skipn {A} : forall (l : list A) a i x, (a <= i)%nat ->
+  nth_error l i = Some x -> In x (skipn a l).
+Proof.
+  induction l as [|y l IH]; intros a i x Hai H; [destruct i; discriminate|].
+  destruct a as [|a]; [cbn [skipn]; eapply nth_error_In; eauto|].
+  destruct i as [|i]; [lia|]. cbn [skipn nth_error] in *. eapply IH; [|exact H]. lia.
+Qed.
+
+Lemma nth_error_in_firstn {A} : forall (l : list A) n i x, (i < n)%nat ->
+  nth_error l i = Some x -> In x (firstn n l).
+Proof.
+  induction l as [|y l IH]; intros n i x Hin H; [destruct i; discriminate|].
+  destruct n as [|n]; [lia|]. cbn [firstn].
+  destruct i as [|i]; cbn [nth_error] in H.
+  - inversion H; now left.
+  - right. eapply IH; [|exact H]. lia.
+Qed.
+
+(* the elements kept in front come before the elements kept behind *)
+Lemma split_three {A} : forall (l : list A) a b, (a <= b)%nat ->
+  l = firstn a l ++ firstn (b - a) (skipn a l) ++ skipn b l.
+Proof.
+  intros l a b Hab.
+  rewrite <- (firstn_skipn a l) at 1. f_equal.
+  rewrite <- (firstn_skipn (b - a) (skipn a l)) at 1. f_equal.
+  revert a b Hab. induction l as [|x l IH]; intros a b Hab.
+  - now rewrite !skipn_nil.
+  - destruct a as [|a]; [now rewrite Nat.sub_0_r|].
+    destruct b as [|b]; [lia|]. cbn [skipn Nat.sub]. apply IH. lia.
+Qed.
+
+Lemma find_index_some {A} (p : A -> bool) : forall l i, find_index p l = Some i ->
+  exists x, nth_error l i = Some x /\ p x = true.
+Proof.
+  induction l as [|y l IH]; intros i H; [discriminate|].
+  cbn [find_index] in H. destruct (p y) eqn:E.
+  - inversion H; subst. exists y. auto.
+  - destruct (find_index p l) as [k|]; [|discriminate]. inversion H; subst.
+    destruct (IH k eq_refl) as [x [H1 H2]]. exists x. auto.
+Qed.
+
+(* ================================================================== *)
+(* C. the collection while it is filled: ui_add                         *)
+(* ================================================================== *)
+Lemma disjoint_sym a b : disjoint a b -> disjoint b a.
+Proof. unfold disjoint. tauto. Qed.
+
+Lemma check_collision_true us st en : check_collision us st en = true ->
+  Forall (fun it => en <= ui_start it \/ ui_end it <= st) us.
+Proof.
+  unfold check_collision. intro H. apply negb_true_iff in H.
+  apply Forall_forall. intros it Hin.
+  assert (E : N.ltb (ui_start it) en && N.ltb st (ui_end it) = false).
+  { destruct (N.ltb (ui_start it) en && N.ltb st (ui_end it)) eqn:E; [|reflexivity].
+    assert (existsb (fun it => N.ltb (ui_start it) en && N.ltb st (ui_end it)) us = true)
+      by (apply existsb_exists; eauto). congruence. }
+  apply andb_false_iff in E as [E|E]; apply N.ltb_ge in E; auto.
+Qed.
+
+Lemma check_collision_false us st en : check_collision us st en = false ->
+  exists it, In it us /\ ui_start it < en /\ st < ui_end it.
+Proof.
+  unfold check_collision. intro H. apply negb_false_iff, existsb_exists in H as [it [Hin H]].
+  apply andb_true_iff in H as [H1 H2]. apply N.ltb_lt in H1, H2. eauto.
+Qed.
+
+(* ui_add either leaves the collection alone or appends one token *)
+Lemma ui_add_cases line us st en k :
+  ui_add line us st en k = us \/
+  (get_position line st < get_position line en /\
+   check_collision us (get_position line st) (get_position line en) = true /\
+   ui_add line us st en k =
+     us ++ [{| ui_start := get_position line st; ui_end := get_position line en; ui_kind := k |}]).
+Proof.
+  unfold ui_add.
+  destruct (N.ltb_spec (get_position line st) (get_position line en)); cbn [andb]; [|now left].
+  destruct (check_collision _ _ _) eqn:E; [right; auto | now left].
+Qed.
+
+(* for ANY byte span: the function itself checks start < end and collisions *)
+Lemma ui_add_inv line us st en k :
+  Inv (N.of_nat (length line)) us -> Inv (N.of_nat (length line)) (ui_add line us st en k).
+Proof.
+  intros [Hb Hd]. destruct (ui_add_cases line us st en k) as [->|[Hlt [Hc ->]]]; [now split|].
+  pose proof (get_position_range line en) as Hr.
+  apply check_collision_true in Hc. rewrite Forall_forall in Hc.
+  split.
+  - apply Forall_app. split; [exact Hb|]. repeat constructor; cbn; lia.
+  - apply FOP_app. repeat split; [exact Hd|repeat constructor|].
+    intros a b Ha [<-|[]]. unfold disjoint. cbn. specialize (Hc a Ha). lia.
+Qed.
+
+Lemma ui_add_opt_inv line us m k :
+  Inv (N.of_nat (length line)) us -> Inv (N.of_nat (length line)) (ui_add_opt line us m k).
+Proof. destruct m as [[st en]|]; cbn [ui_add_opt]; [apply ui_add_inv|auto]. Qed.
+
+Lemma inv_nil n : Inv n [].
+Proof. split; constructor. Qed.
+
+(* a token is reported with its own kind over exactly its characters: a character-aligned
+   byte span [byte_off i, byte_off j) that is free is appended as (i, j, k) *)
+Lemma ui_add_exact line us i j k : (i < j <= length line)%nat ->
+  check_collision us (N.of_nat i) (N.of_nat j) = true ->
+  ui_add line us (byte_off line i) (byte_off line j) k =
+  us ++ [{| ui_start := N.of_nat i; ui_end := N.of_nat j; ui_kind := k |}].
+Proof.
+  intros Hij Hc. unfold ui_add. rewrite !get_position_char by lia. rewrite Hc.
+  replace (N.ltb (N.of_nat i) (N.of_nat j)) with true by (symmetry; apply N.ltb_lt; lia).
+  reflexivity.
+Qed.
+
+(* ... and a span that touches an earlier token is dropped, never merged or truncated *)
+Lemma ui_add_collision line us st en k it : In it us ->
+  ui_start it < get_position line en -> get_position line st < ui_end it ->
+  ui_add line us st en k = us.
+Proof.
+  intros Hin H1 H2. destruct (ui_add_cases line us st en k) as [E|[_ [Hc _]]]; [exact E|].
+  apply check_collision_true in Hc. rewrite Forall_forall in Hc. specialize (Hc it Hin). lia.
+Qed.
+
+(* any sequence of additions starting from the empty collection *)
+Inductive ui_built (line : str) : list uitoken -> Prop :=
+| ub_nil : ui_built line []
+| ub_add us st en k : ui_built line us -> ui_built line (ui_add line us st en k)
+| ub_add_opt us m k : ui_built line us -> ui_built line (ui_add_opt line us m k).
+
+Lemma ui_built_inv line us : ui_built line us -> Inv (N.of_nat (length line)) us.
+Proof.
+  induction 1; [apply inv_nil|now apply ui_add_inv|now apply ui_add_opt_inv].
+Qed.
+
+Lemma fold_ui_add_inv line (spans : list (N * N * uikind)) :
+  Inv (N.of_nat (length line))
+      (fold_left (fun us sp => ui_add line us (fst (fst sp)) (snd (fst sp)) (snd sp)) spans []).
+Proof.
+  assert (G : forall us, Inv (N.of_nat (length line)) us ->
+              Inv (N.of_nat (length line))
+                (fold_left (fun us sp => ui_add line us (fst (fst sp)) (snd (fst sp)) (snd sp)) spans us)).
+  { induction spans as [|sp r IH]; intros us H; cbn [fold_left]; [exact H|].
+    apply IH. now apply ui_add_inv. }
+  apply G, inv_nil.
+Qed.
+
+(* ================================================================== *)
+(* D. ui_sort                                                           *)
+(* ================================================================== *)
+Lemma insert_perm t : forall l, Permutation (ui_insert_sorted t l) (t :: l).
+Proof.
+  induction l as [|x r IH]; cbn [ui_insert_sorted]; [reflexivity|].
+  destruct (N.ltb _ _); [reflexivity|].
+  rewrite IH. apply perm_swap.
+Qed.
+
+Lemma insert_sorted t : forall l, sorted_by_start l -> sorted_by_start (ui_insert_sorted t l).
+Proof.
+  unfold sorted_by_start.
+  induction l as [|x r IH]; intro H; cbn [ui_insert_sorted]; [repeat constructor|].
+  apply SS_cons_iff in H as [H1 H2].
+  destruct (N.ltb_spec (ui_start t) (ui_start x)).
+  - apply SS_cons_iff. split; [|apply SS_cons_iff; auto].
+    constructor; [unfold le_start; lia|].
+    eapply Forall_impl; [|exact H1]. unfold le_start. intros; lia.
+  - apply SS_cons_iff. split; [|auto].
+    eapply Permutation_Forall; [symmetry; apply insert_perm|].
+    constructor; [unfold le_start; lia|exact H1].
+Qed.
+
+Lemma ui_sort_fold : forall l acc, sorted_by_start acc ->
+  sorted_by_start (fold_left (fun acc t => ui_insert_sorted t acc) l acc) /\
+  Permutation (fold_left (fun acc t => ui_insert_sorted t acc) l acc) (acc ++ l).
+Proof.
+  induction l as [|t r IH]; intros acc H; cbn [fold_left].
+  - rewrite app_nil_r. auto.
+  - destruct (IH (ui_insert_sorted t acc) (insert_sorted t acc H)) as [H1 H2]. split; [exact H1|].
+    rewrite H2, insert_perm. cbn [app]. apply Permutation_middle.
+Qed.
+
+Lemma ui_sort_perm l : Permutation (ui_sort l) l.
+Proof. unfold ui_sort. now destruct (ui_sort_fold l [] ltac:(constructor)). Qed.
+
+Lemma ui_sort_sorted l : sorted_by_start (ui_sort l).
+Proof. unfold ui_sort. now destruct (ui_sort_fold l [] ltac:(constructor)). Qed.
+
+Lemma inv_perm n l l' : Permutation l l' -> Inv n l -> Inv n l'.
+Proof.
+  intros Hp [H1 H2]. split; [eapply Permutation_Forall; eauto|].
+  eapply FOP_perm; eauto. apply disjoint_sym.
+Qed.
+
+Lemma ui_sort_inv n l : Inv n l -> Inv n (ui_sort l).
+Proof. apply inv_perm. symmetry. apply ui_sort_perm. Qed.
+
+(* ================================================================== *)
+(* E. sorted + pairwise disjoint  <->  a chain                          *)
+(* ================================================================== *)
+(* the shape of the collection after `sort`: every earlier token ends before every later starts *)
+Definition Chain (n : N) (us : list uitoken) : Prop :=
+  Forall (span_ok n) us /\ StronglySorted no_overlap us.
+
+Lemma chain_of_sorted_inv n us : Inv n us -> sorted_by_start us -> Chain n us.
+Proof.
+  intros [Hb Hd] Hs. split; [exact Hb|].
+  induction us as [|a r IH]; [constructor|].
+  apply FOP_cons_iff in Hd as [Hd1 Hd2]. apply SS_cons_iff in Hs as [Hs1 Hs2].
+  inversion Hb as [|? ? Ha Hr]; subst.
+  apply SS_cons_iff. split; [|auto].
+  rewrite Forall_forall in *. intros b Hin.
+  specialize (Hd1 b Hin). specialize (Hs1 b Hin). specialize (Hr b Hin).
+  unfold disjoint, le_start, no_overlap, span_ok in *. lia.
+Qed.
+
+Lemma sorted_inv_of_chain n us : Chain n us -> Inv n us /\ sorted_by_start us.
+Proof.
+  intros [Hb Hs]. induction us as [|a r IH]; [repeat split; constructor|].
+  apply SS_cons_iff in Hs as [Hs1 Hs2]. inversion Hb as [|? ? Ha Hr]; subst.
+  destruct (IH Hr Hs2) as [[_ I2] I3].
+  assert (Hrr := Hr). rewrite Forall_forall in Hs1, Hrr.
+  repeat split; [exact Hb| |].
+  - apply FOP_cons_iff. split; [|exact I2]. apply Forall_forall. intros b Hin.
+    left. exact (Hs1 b Hin).
+  - apply SS_cons_iff. split; [|exact I3]. apply Forall_forall. intros b Hin.
+    specialize (Hs1 b Hin). specialize (Hrr b Hin). unfold le_start, no_overlap, span_ok in *. lia.
+Qed.
+
+Lemma consecutive_of_SS (R : uitoken -> uitoken -> Prop) us : StronglySorted R us -> consecutive R us.
+Proof.
+  induction us as [|a r IH]; intro H; [exact I|].
+  apply SS_cons_iff in H as [H1 H2]. destruct r as [|b r]; [exact I|].
+  split; [now inversion H1|]. apply IH. exact H2.
+Qed.
+
+Lemma chain_wf line us : Chain (N.of_nat (length line)) us -> WF line us.
+Proof.
+  intro H. destruct (sorted_inv_of_chain _ _ H) as [[Hb _] Hs]. destruct H as [_ Hc].
+  repeat split; [exact Hb|now apply consecutive_of_SS|now apply consecutive_of_SS].
+Qed.
+
+(* sorted + pairwise disjoint => consecutive spans do not overlap *)
+Lemma sorted_inv_wf line us :
+  Inv (N.of_nat (length line)) us -> sorted_by_start us -> WF line us.
+Proof. intros. now apply chain_wf, chain_of_sorted_inv. Qed.
+
+(* WF is exactly the executable check *)
+Lemma wf_from_sound n : forall us lo, wf_from n lo us = true ->
+  Forall (span_ok n) us /\ StronglySorted no_overlap us /\ Forall (fun t => lo <= ui_start t) us.
+Proof.
+  induction us as [|t r IH]; intros lo H; [repeat split; constructor|].
+  cbn [wf_from] in H. repeat (apply andb_true_iff in H as [H ?]).
+  apply N.leb_le in H, H1. apply N.ltb_lt in H2.
+  destruct (IH _ H0) as [I1 [I2 I3]]. repeat split.
+  - constructor; [split; lia|exact I1].
+  - apply SS_cons_iff. split; [|exact I2]. eapply Forall_impl; [|exact I3]. unfold no_overlap. auto.
+  - constructor; [exact H|]. eapply Forall_impl; [|exact I3]. cbn. intros; lia.
+Qed.
+
+Lemma wf_b_sound line us : wf_b line us = true -> WF line us.
+Proof.
+  intro H. apply wf_from_sound in H as [H1 [H2 _]]. apply chain_wf. now split.
+Qed.
+
+(* ================================================================== *)
+(* F. ui_update                                                         *)
+(* ================================================================== *)
+Lemma as_i8_le i : (as_i8 i > -1)%Z -> (Z.to_nat (as_i8 i) <= i)%nat.
+Proof.
+  unfold as_i8. intro H.
+  pose proof (Z.mod_pos_bound (Z.of_nat i) 256 ltac:(lia)) as Hb.
+  assert (Hle : (Z.of_nat i mod 256 <= Z.of_nat i)%Z) by (apply Z.mod_le; lia).
+  destruct (Z.ltb_spec (Z.of_nat i mod 256) 128); lia.
+Qed.
+
+Lemma as_i8_small i : (i < 128)%nat -> as_i8 i = Z.of_nat i.
+Proof.
+  intro H. unfold as_i8. rewrite Z.mod_small by lia.
+  destruct (Z.ltb_spec (Z.of_nat i) 128); lia.
+Qed.
+
+(* the three outcomes of ui_update, read off the definition *)
+Definition merged (line : str) (us : list uitoken) (pst pen : N) (k : uikind) (a j : nat) : list uitoken :=
+  firstn a us ++ {| ui_start := get_position line pst; ui_end := get_position line pen; ui_kind := k |}
+              :: skipn (S j) us.
+
+Definition update_sites (line : str) (us : list uitoken) (pst pen : N) (i j : nat) : Prop :=
+  exists ti tj, nth_error us i = Some ti /\ ui_start ti = get_position line pst /\
+                nth_error us j = Some tj /\ ui_end tj = get_position line pen /\
+                (Z.to_nat (as_i8 i) <= i)%nat.
+
+Lemma ui_update_cases line us pst pen k :
+  ui_update line us pst pen k = Ok us \/
+  (exists i j, update_sites line us pst pen i j /\ (Z.to_nat (as_i8 i) <= S j)%nat /\
+               ui_update line us pst pen k = Ok (merged line us pst pen k (Z.to_nat (as_i8 i)) j)) \/
+  (exists i j, update_sites line us pst pen i j /\ (S j < Z.to_nat (as_i8 i))%nat /\
+               ui_update line us pst pen k = Panic 1701).
+Proof.
+  unfold ui_update, merged.
+  destruct (find_index _ us) as [i|] eqn:Ei; [|now left].
+  destruct (Z.gtb_spec (as_i8 i) (-1)) as [Hi|Hi]; [|now left].
+  destruct (find_index (fun t => N.eqb (ui_end t) _) us) as [j|] eqn:Ej; [|now left].
+  apply find_index_some in Ei as [ti [Hti Hsi]]. apply find_index_some in Ej as [tj [Htj Hej]].
+  apply N.eqb_eq in Hsi, Hej. pose proof (as_i8_le i ltac:(lia)) as Hle.
+  assert (Hs : update_sites line us pst pen i j) by (exists ti, tj; auto).
+  right. destruct (Nat.ltb_spec (S j) (Z.to_nat (as_i8 i))).
+  - right. exists i, j. auto.
+  - left. exists i, j. auto.
+Qed.
+
+(* in a chain an element at a smaller index ends before an element at a larger index starts *)
+Lemma chain_order n us i j ti tj : Chain n us -> (i < j)%nat ->
+  nth_error us i = Some ti -> nth_error us j = Some tj -> ui_end ti <= ui_start tj.
+Proof.
+  intros [_ Hs] Hij Hi Hj.
+  rewrite <- (firstn_skipn j us) in Hs. apply SS_app in Hs as [_ [_ Hc]].
+  apply (Hc ti tj).
+  - eapply nth_error_in_firstn; eauto.
+  - eapply nth_error_in_skipn; [|eauto]. lia.
+Qed.
+
+Lemma chain_span n us i ti : Chain n us -> nth_error us i = Some ti -> span_ok n ti.
+Proof. intros [Hb _] H. rewrite Forall_forall in Hb. eapply Hb, nth_error_In; eauto. Qed.
+
+(* when the merged span is non-empty the start token is not after the end token: no panic *)
+Lemma ui_update_no_panic line us pst pen k n : Chain n us ->
+  get_position line pst < get_position line pen ->
+  exists us', ui_update line us pst pen k = Ok us'.
+Proof.
+  intros Hc Hlt.
+  destruct (ui_update_cases line us pst pen k) as [H|[[i [j [_ [_ H]]]]|[i [j [Hs [Hgt _]]]]]]; eauto.
+  exfalso. destruct Hs as [ti [tj [Hti [Hs [Htj [He Hle]]]]]].
+  assert (Hji : (j < i)%nat) by lia.
+  pose proof (chain_order n us j i tj ti Hc Hji Htj Hti). lia.
+Qed.
+
+(* a merge with a non-empty span keeps the chain: the block a..j is replaced by one token that
+   starts where token i >= a starts and ends where token j ends *)
+Lemma ui_update_chain line us pst pen k us' :
+  Chain (N.of_nat (length line)) us ->
+  ui_update line us pst pen k = Ok us' ->
+  get_position line pst < get_position line pen \/ us' = us ->
+  Chain (N.of_nat (length line)) us'.
+Proof.
+  intros Hc Hu Hcond.
+  destruct Hcond as [Hlt|Heq]; [|rewrite Heq; exact Hc].
+  destruct (ui_update_cases line us pst pen k) as [H|[[i [j [Hsites [Hle2 H]]]]|[i [j [_ [_ H]]]]]];
+    rewrite H in Hu; [injection Hu as <-; exact Hc| |discriminate].
+  injection Hu as <-. unfold merged.
+  destruct Hsites as [ti [tj [Hti [Hs [Htj [He Hle]]]]]].
+  set (a := Z.to_nat (as_i8 i)) in *.
+  set (new := {| ui_start := get_position line pst; ui_end := get_position line pen; ui_kind := k |}).
+  destruct Hc as [Hb Hss]. rewrite Forall_forall in Hb.
+  assert (Hsplit := split_three us a (S j) Hle2).
+  assert (Hss' := Hss). rewrite Hsplit in Hss'.
+  apply SS_app in Hss' as [S1 [S23 C1]]. apply SS_app in S23 as [S2 [S3 C2]].
+  (* tokens kept in front end before token i starts *)
+  assert (F1 : forall x, In x (firstn a us) -> ui_end x <= ui_start new).
+  { intros x Hx. unfold new. cbn [ui_start]. rewrite <- Hs.
+    assert (Hss2 := Hss). rewrite <- (firstn_skipn a us) in Hss2. apply SS_app in Hss2 as [_ [_ C]].
+    apply (C x ti Hx). exact (nth_error_in_skipn us a i ti Hle Hti). }
+  (* tokens kept behind start after token j ends *)
+  assert (F2 : forall y, In y (skipn (S j) us) -> ui_end new <= ui_start y).
+  { intros y Hy. unfold new. cbn [ui_end]. rewrite <- He.
+    assert (Hss2 := Hss). rewrite <- (firstn_skipn (S j) us) in Hss2. apply SS_app in Hss2 as [_ [_ C]].
+    apply (C tj y); [|exact Hy]. exact (nth_error_in_firstn us (S j) j tj (Nat.lt_succ_diag_r j) Htj). }
+  split.
+  - apply Forall_app. split; [|constructor].
+    + apply Forall_forall. intros x Hx. apply Hb. exact (In_firstn a us x Hx).
+    + split; unfold new; cbn [ui_start ui_end]; [exact Hlt|apply get_position_range].
+    + apply Forall_forall. intros x Hx. apply Hb. exact (In_skipn (S j) us x Hx).
+  - apply SS_app. repeat split; [exact S1| |].
+    + apply SS_cons_iff. split; [|exact S3]. apply Forall_forall. exact F2.
+    + intros x y Hx [<-|Hy]; [exact (F1 x Hx)|].
+      apply C1; [exact Hx|]. apply in_or_app. now right.
+Qed.
+
+(* the inserted token is exactly (char of pst, char of pen, k); everything else is untouched *)
+Lemma ui_update_shape line us pst pen k us' : ui_update line us pst pen k = Ok us' ->
+  us' = us \/
+  exists a j, (a <= S j)%nat /\ (S j <= length us)%nat /\ us' = merged line us pst pen k a j.
+Proof.
+  intro Hu.
+  destruct (ui_update_cases line us pst pen k) as [H|[[i [j [Hsites [Hle2 H]]]]|[i [j [_ [_ H]]]]]];
+    rewrite H in Hu; [injection Hu as <-; now left| |discriminate].
+  injection Hu as <-. right. exists (Z.to_nat (as_i8 i)), j. repeat split; auto.
+  destruct Hsites as [ti [tj [_ [_ [Htj _]]]]].
+  assert (j < length us)%nat by (apply nth_error_Some; congruence). lia.
+Qed.
+
+(* character positions only: whatever byte offsets are passed, no position exceeds the line *)
+Definition in_line (n : N) (t : uitoken) : Prop := ui_start t <= n /\ ui_end t <= n.
+
+Lemma ui_update_in_line line us pst pen k us' :
+  Forall (in_line (N.of_nat (length line))) us -> ui_update line us pst pen k = Ok us' ->
+  Forall (in_line (N.of_nat (length line))) us'.
+Proof.
+  intros H Hu. destruct (ui_update_shape _ _ _ _ _ _ Hu) as [->|[a [j [_ [_ ->]]]]]; [exact H|].
+  rewrite Forall_forall in H. unfold merged.
+  apply Forall_app. split; [|constructor].
+  - apply Forall_forall. intros x Hx. apply H. exact (In_firstn a us x Hx).
+  - split; cbn; apply get_position_range.
+  - apply Forall_forall. intros x Hx. apply H. exact (In_skipn (S j) us x Hx).
+Qed.
+
+Lemma ui_add_in_line line us st en k :
+  Forall (in_line (N.of_nat (length line))) us -> Forall (in_line (N.of_nat (length line))) (ui_add line us st en k).
+Proof.
+  intro H. destruct (ui_add_cases line us st en k) as [->|[_ [_ ->]]]; [exact H|].
+  apply Forall_app. split; [exact H|]. repeat constructor; cbn; apply get_position_range.
+Qed.
+
+Lemma inv_in_line n us : Inv n us -> Forall (in_line n) us.
+Proof. intros [H _]. eapply Forall_impl; [|exact H]. unfold span_ok, in_line. intros; lia. Qed.
+
+(* exact panic condition *)
+Lemma ui_update_panic_iff line us pst pen k site :
+  ui_update line us pst pen k = Panic site <->
+  site = 1701 /\
+  exists i j, find_index (fun t => N.eqb (ui_start t) (get_position line pst)) us = Some i /\
+              (as_i8 i > -1)%Z /\
+              find_index (fun t => N.eqb (ui_end t) (get_position line pen)) us = Some j /\
+              (S j < Z.to_nat (as_i8 i))%nat.
+Proof.
+  unfold ui_update.
+  destruct (find_index _ us) as [i|] eqn:Ei.
+  2:{ split; [discriminate|]. intros [_ [i [j [H _]]]]. discriminate. }
+  destruct (Z.gtb_spec (as_i8 i) (-1)) as [Hi|Hi].
+  2:{ split; [discriminate|]. intros [_ [i' [j [H [H2 _]]]]]. inversion H; subst. lia. }
+  destruct (find_index (fun t => N.eqb (ui_end t) _) us) as [j|] eqn:Ej.
+  2:{ split; [discriminate|]. intros [_ [i' [j [_ [_ [H _]]]]]]. discriminate. }
+  destruct (Nat.ltb_spec (S j) (Z.to_nat (as_i8 i))).
+  - split.
+    + intro H1; inversion H1; subst. split; [reflexivity|]. exists i, j. repeat split; auto. lia.
+    + intros [-> _]. reflexivity.
+  - split; [discriminate|]. intros [_ [i' [j' [H1 [_ [H2 H3]]]]]].
+    inversion H1; inversion H2; subst. lia.
+Qed.
+
+(* ================================================================== *)
+(* G. the pipeline: every path through the lexer and the rule stages    *)
+(* ================================================================== *)
+Local Open Scope Z_scope.
+
+Lemma add_token_ui {F} (st : @Lexer.tstate F) b e ty text st1 ok :
+  add_token st b e ty text = (st1, ok) -> ts_ui st1 = ts_ui st.
+Proof.
+  unfold add_token. destruct (collides _ _ _); intro H; inversion H; reflexivity.
+Qed.
+
+Lemma add_token_fst_ui {F} (st : @Lexer.tstate F) b e ty text :
+  ts_ui (fst (add_token st b e ty text)) = ts_ui st.
+Proof. destruct (add_token st b e ty text) eqn:E. cbn [fst]. eapply add_token_ui; eauto. Qed.
+
+Lemma unfuel_ok {A} (x : res (option A)) a : unfuel x = Ok a -> x = Ok (Some a).
+Proof. unfold unfuel. destruct x as [[v|]|]; intro H; inversion H; reflexivity. Qed.
+
+Ltac crunch :=
+  repeat match goal with
+  | H : Ok (if ?x then _ else _) = Ok _ |- _ => destruct x eqn:?
+  | H : Ok _ = Ok _ |- _ => inversion H; subst; clear H
+  | H : Panic _ = Ok _ |- _ => discriminate H
+  | H : bind ?x _ = Ok _ |- _ => destruct x eqn:?; cbn [bind] in H
+  | H : (let '(_, _) := ?x in _) = Ok _ |- _ => destruct x eqn:?
+  | H : match ?x with _ => _ end = Ok _ |- _ => destruct x eqn:?
+  | H : (if ?x then _ else _) = Ok _ |- _ => destruct x eqn:?
+  end.
+
+Section Pipeline.
+Context {F : Type} {NF : Num F}.
+Variable line : str.
+Variable P : list uitoken -> Prop.
+Hypothesis P_add : forall us st en k, P us -> P (ui_add line us st en k).
+
+Lemma P_add_opt us m k : P us -> P (ui_add_opt line us m k).
+Proof. destruct m as [[a b]|]; cbn [ui_add_opt]; auto. Qed.
+
+Definition PS (st : @Lexer.tstate F) : Prop := P (ts_ui st).
+
+Ltac finish_ps :=
+  unfold PS in *; cbn [ts_ui with_ui] in *;
+  repeat match goal with
+  | H : add_token _ _ _ _ _ = (_, _) |- _ => apply add_token_ui in H; try rewrite H in *
+  end;
+  try rewrite !add_token_fst_ui;
+  repeat match goal with |- context[if ?x then _ else _] => destruct x end;
+  repeat match goal with |- context[let (_, _) := ?p in _] => destruct p end;
+  cbn [ts_ui with_ui] in *;
+  repeat first [assumption | apply P_add | apply P_add_opt].
+
+Definition preserves (body : @parser_body F) : Prop :=
+  forall c cp st st', PS st -> body c cp st = Ok st' -> PS st'.
+
+Lemma over_captures_ps body : preserves body ->
+  forall c cps st st', PS st -> over_captures body c cps st = Ok st' -> PS st'.
+Proof.
+  intros Hb c cps. induction cps as [|cp r IH]; intros st st' HP H; cbn [over_captures] in H.
+  - now inversion H; subst.
+  - destruct (body c cp st) eqn:E; cbn [bind] in H; [|discriminate]. eauto.
+Qed.
+
+Lemma over_regexes_ps body data : preserves body ->
+  forall rs st st', PS st -> over_regexes body data rs st = Ok st' -> PS st'.
+Proof.
+  intros Hb rs. induction rs as [|c r IH]; intros st st' HP H; cbn [over_regexes] in H.
+  - now inversion H; subst.
+  - destruct (over_captures body c (caps_iter c data) st) eqn:E; cbn [bind] in H; [|discriminate].
+    eapply IH; [|exact H]. eapply over_captures_ps; eauto.
+Qed.
+
+Lemma comment_ps : preserves (comment_body line).
+Proof. intros c cp st st' HP H. unfold comment_body in H. crunch; finish_ps. Qed.
+
+Lemma field_ps cfg lang : preserves (field_body cfg lang line).
+Proof. intros c cp st st' HP H. unfold field_body in H. crunch; finish_ps. Qed.
+
+Lemma money_ps cfg : preserves (money_body cfg line).
+Proof. intros c cp st st' HP H. unfold money_body in H. crunch; finish_ps. Qed.
+
+Lemma percent_ps cfg : preserves (percent_body cfg line).
+Proof. intros c cp st st' HP H. unfold percent_body in H. crunch; finish_ps. Qed.
+
+Lemma timezone_ps cfg data : preserves (timezone_body cfg line data).
+Proof. intros c cp st st' HP H. unfold timezone_body in H. crunch; finish_ps. Qed.
+
+Lemma time_ps today cfg : preserves (time_body today cfg line).
+Proof. intros c cp st st' HP H. unfold time_body in H. crunch; finish_ps. Qed.
+
+Lemma number_ps cfg : preserves (number_body cfg line).
+Proof. intros c cp st st' HP H. unfold number_body in H. cbv zeta in H. crunch; finish_ps. Qed.
+
+Lemma text_ps today cfg lang : preserves (text_body today cfg lang line).
+Proof.
+  intros c cp st st' HP H. unfold text_body in H.
+  destruct (need _) as [tsp|]; cbn [bind] in H; [|discriminate].
+  destruct (match trim _ with [] => true | _ => false end); [now inversion H; subst|].
+  destruct (cap_get cp 0) as [[b e]|]; [|now inversion H; subst].
+  cbv zeta in H.
+  match type of H with (let '(_, _) := add_token ?S _ _ _ _ in _) = _ =>
+    assert (HS : PS S); [|set (S1 := S) in *; clearbody S1] end.
+  - match goal with |- PS (match ?o with Some _ => _ | None => _ end) => destruct o end; [|exact HP].
+    destruct (add_token st b e _ _) as [st1 ok] eqn:E. apply add_token_ui in E.
+    destruct ok; unfold PS; cbn [ts_ui with_ui]; rewrite ?E; auto.
+  - destruct (add_token S1 b e _ _) as [st2 ok] eqn:E. apply add_token_ui in E.
+    inversion H; subst. destruct ok; unfold PS in *; cbn [ts_ui with_ui]; rewrite ?E; auto.
+Qed.
+
+Lemma whitespace_ps : preserves (whitespace_body line).
+Proof. intros c cp st st' HP H. unfold whitespace_body in H. crunch; finish_ps. Qed.
+
+Lemma operator_ps : preserves (operator_body line).
+Proof. intros c cp st st' HP H. unfold operator_body in H. crunch; finish_ps. Qed.
+
+Lemma atom_ps today cfg rs st st' : PS st -> atom_parser today cfg line rs st = Ok st' -> PS st'.
+Proof.
+  intros HP H. unfold atom_parser in H. crunch. unfold PS in *.
+  match goal with E : get_atom _ _ _ _ = _ |- _ => clear E end.
+  revert st HP. induction a as [|[[[b e] t] text] r IH]; intros st HP; cbn [fold_left]; [exact HP|].
+  apply IH. now rewrite add_token_fst_ui.
+Qed.
+
+Lemma run_parser_ps today cfg lang key rs st st' :
+  PS st -> run_parser today cfg lang line key rs st = Ok st' -> PS st'.
+Proof.
+  intros HP H. unfold run_parser in H.
+  repeat match type of H with (if ?x then _ else _) = _ => destruct x end;
+    try (eapply over_regexes_ps; [|exact HP|exact H]);
+    auto using comment_ps, field_ps, money_ps, percent_ps, timezone_ps, time_ps, number_ps, text_ps,
+               whitespace_ps, operator_ps.
+  - eapply atom_ps; eauto.
+  - now inversion H; subst.
+Qed.
+
+Lemma cleanup_ps st : PS st -> PS (cleanup st).
+Proof. auto. Qed.
+
+Lemma regex_tokinizer_ps lx today cfg lang st st' :
+  PS st -> regex_tokinizer lx today cfg lang line st = Ok st' -> PS st'.
+Proof.
+  intros HP H. unfold regex_tokinizer in H.
+  match type of H with bind ?x _ = _ => destruct x as [st1|] eqn:E end; cbn [bind] in H; [|discriminate].
+  inversion H; subst. apply cleanup_ps. clear H.
+  revert st HP E. generalize RustConsts.PARSER_ORDER as keys.
+  induction keys as [|k r IH]; intros st HP E.
+  - now inversion E; subst.
+  - destruct (assoc k (lx_parse lx)) as [regexes|] eqn:Ea.
+    + destruct (run_parser today cfg lang line k regexes st) as [st2|] eqn:Er; cbn [bind] in E; [|discriminate].
+      eapply IH; [|exact E]. eapply run_parser_ps; eauto.
+    + eapply IH; eauto.
+Qed.
+
+Lemma month_parser_ps lx cfg lang st st' :
+  PS st -> month_parser lx cfg lang line st = Ok st' -> PS st'.
+Proof.
+  intros HP H. unfold month_parser in H.
+  destruct (assoc lang (lx_months lx)) as [months|]; [|now inversion H; subst].
+  revert st HP H. induction months as [|[c mi] r IH]; intros st HP H.
+  - now inversion H; subst.
+  - match type of H with bind ?x _ = _ => destruct x as [st2|] eqn:E end; cbn [bind] in H; [|discriminate].
+    eapply IH; [|exact H].
+    eapply over_captures_ps; [|exact HP|exact E].
+    intros c0 cp0 s0 s0' HP0 H0. crunch; finish_ps.
+Qed.
+
+Lemma language_tokinizer_ps lx cfg lang st st' :
+  PS st -> language_tokinizer lx cfg lang line st = Ok st' -> PS st'.
+Proof.
+  intros HP H. unfold language_tokinizer in H. crunch. apply cleanup_ps. eapply month_parser_ps; eauto.
+Qed.
+
+Lemma alias_tokinizer_ps lx today cfg lang st st' :
+  PS st -> alias_tokinizer lx today cfg lang st = Ok st' -> PS st'.
+Proof. intros HP H. unfold alias_tokinizer in H. crunch; exact HP. Qed.
+
+(* the whole lexer, from the empty collection *)
+Lemma lexer_ps lx today cfg lang st1 st2 st3 : P [] ->
+  language_tokinizer lx cfg lang line empty_state = Ok st1 ->
+  regex_tokinizer lx today cfg lang line st1 = Ok st2 ->
+  alias_tokinizer lx today cfg lang st2 = Ok st3 ->
+  PS st3.
+Proof.
+  intros H0 H1 H2 H3.
+  eapply alias_tokinizer_ps; [|exact H3]. eapply regex_tokinizer_ps; [|exact H2].
+  eapply language_tokinizer_ps; [|exact H1]. exact H0.
+Qed.
+
+(* ---- the stages that rewrite the collection ---- *)
+Hypothesis P_sort : forall us, P us -> P (ui_sort us).
+Hypothesis P_update : forall us pst pen k us', P us -> ui_update line us pst pen k = Ok us' -> P us'.
+
+Lemma subst_loop_ps vs : forall fuel start st st',
+  PS st -> subst_loop fuel line vs start st = Ok (Some st') -> PS st'.
+Proof.
+  induction fuel as [|f IH]; intros start st st' HP H; cbn [subst_loop] in H; [discriminate|].
+  destruct (pick_variable vs (skipn start (ts_infos st)) None) as [best|] eqn:Eb; cbn [bind] in H; [|discriminate].
+  destruct best as [[[closest name] size]|]; [|now inversion H; subst].
+  destruct (nth_opt (ts_infos st) (start + closest)) as [first|]; [|discriminate].
+  destruct (nth_opt (ts_infos st) _) as [last|]; [|discriminate].
+  destruct (Nat.ltb _ _); [discriminate|].
+  destruct (ui_update line (ts_ui st) (ti_start first) (ti_end last) UVariableUse) as [ui'|] eqn:Eu;
+    cbn [bind] in H; [|discriminate].
+  eapply IH; [|exact H]. unfold PS. cbn [ts_ui]. eapply P_update; eauto.
+Qed.
+
+Lemma update_token_variables_ps vs st st' :
+  PS st -> update_token_variables line vs st = Ok (Some st') -> PS st'.
+Proof.
+  intros HP H. unfold update_token_variables in H.
+  match type of H with bind ?x _ = _ => destruct x as [[si ui1]|] eqn:E end; cbn [bind] in H; [|discriminate].
+  eapply subst_loop_ps; [|exact H]. unfold PS. cbn [ts_ui].
+  crunch; try (apply P_sort; exact HP).
+  eapply P_update; [|eassumption]. apply P_sort. exact HP.
+Qed.
+
+Lemma ui_type_field_p ui (fs : fields F) ui' : P ui -> ui_type_field line ui fs = Ok ui' -> P ui'.
+Proof. intros HP H. unfold ui_type_field in H. crunch; eauto. Qed.
+
+Lemma api_ui_fields_p : forall (fs : fields F) ui ui', P ui -> api_ui_fields line ui fs = Ok ui' -> P ui'.
+Proof.
+  induction fs as [|[n t] r IH]; intros ui ui' HP H; cbn [api_ui_fields] in H.
+  - now inversion H; subst.
+  - destruct (ui_update line ui _ _ _) eqn:E; cbn [bind] in H; [|discriminate]. eauto.
+Qed.
+
+Lemma dyn_try_patterns_ps vs d : forall pats st st',
+  PS st -> dyn_try_patterns line vs d pats st = Ok (Some st') -> PS st'.
+Proof.
+  induction pats as [|pat r IH]; intros st st' HP H; cbn [dyn_try_patterns] in H; [discriminate|].
+  destruct (find_match vs pat (ts_infos st)) as [m|]; cbn [bind] in H; [|discriminate].
+  destruct (Nat.eqb _ _); [|eauto].
+  crunch. unfold PS. cbn [ts_ui]. eapply ui_type_field_p; eauto.
+Qed.
+
+Lemma dyn_sweep_units_ps vs : forall units st fired st' fired',
+  PS st -> dyn_sweep_units line vs units st fired = Ok (st', fired') -> PS st'.
+Proof.
+  induction units as [|d r IH]; intros st fired st' fired' HP H; cbn [dyn_sweep_units] in H.
+  - now inversion H; subst.
+  - destruct (dyn_try_patterns line vs d (dt_parse d) st) as [[st1|]|] eqn:E; cbn [bind] in H; [| |discriminate].
+    + eapply IH; [|exact H]. eapply dyn_try_patterns_ps; eauto.
+    + eauto.
+Qed.
+
+Lemma dyn_loop_ps cfg vs : forall fuel st st',
+  PS st -> dyn_loop fuel line cfg vs st = Ok (Some st') -> PS st'.
+Proof.
+  induction fuel as [|f IH]; intros st st' HP H; cbn [dyn_loop] in H; [discriminate|].
+  destruct (dyn_sweep_units line vs (all_units cfg) st false) as [[st1 fired]|] eqn:E; cbn [bind] in H; [|discriminate].
+  apply dyn_sweep_units_ps in E; [|exact HP].
+  destruct fired; [eauto|now inversion H; subst].
+Qed.
+
+Lemma rule_try_patterns_ps bexec ny cfg lang vs r : forall pats st st',
+  PS st -> rule_try_patterns bexec ny line cfg lang vs r pats st = Ok (Some st') -> PS st'.
+Proof.
+  induction pats as [|pat rest IH]; intros st st' HP H; cbn [rule_try_patterns] in H; [discriminate|].
+  destruct (find_match vs pat (ts_infos st)) as [m|]; cbn [bind] in H; [|discriminate].
+  destruct (Nat.eqb _ _); [|eauto].
+  destruct r as [fname ps|ps ar].
+  - destruct (call_rule _ _ _ _ _ _ _) as [[tok|]|]; cbn [bind] in H; [| |discriminate]; [|eauto].
+    crunch. unfold PS. cbn [ts_ui]. eapply ui_type_field_p; eauto.
+  - destruct (api_call cfg ar (fm_fields m)) as [tok|]; [|eauto].
+    crunch. unfold PS. cbn [ts_ui]. eapply api_ui_fields_p; eauto.
+Qed.
+
+Lemma rule_sweep_ps bexec ny cfg lang vs : forall rules st fired st' fired',
+  PS st -> rule_sweep bexec ny line cfg lang vs rules st fired = Ok (st', fired') -> PS st'.
+Proof.
+  induction rules as [|r rest IH]; intros st fired st' fired' HP H; cbn [rule_sweep] in H.
+  - now inversion H; subst.
+  - destruct (rule_try_patterns _ _ _ _ _ _ _ _ _) as [[st1|]|] eqn:E; cbn [bind] in H; [| |discriminate].
+    + eapply IH; [|exact H]. eapply rule_try_patterns_ps; eauto.
+    + eauto.
+Qed.
+
+Lemma rule_loop_ps bexec ny cfg lang vs rules : forall fuel st st',
+  PS st -> rule_loop bexec ny fuel line cfg lang vs rules st = Ok (Some st') -> PS st'.
+Proof.
+  induction fuel as [|f IH]; intros st st' HP H; cbn [rule_loop] in H; [discriminate|].
+  destruct (rule_sweep _ _ _ _ _ _ _ _ _) as [[st1 fired]|] eqn:E; cbn [bind] in H; [|discriminate].
+  apply rule_sweep_ps in E; [|exact HP].
+  destruct fired; [eauto|now inversion H; subst].
+Qed.
+
+Lemma rule_tokinizer_ps bexec ny fuel cfg lang vs st st' :
+  PS st -> rule_tokinizer bexec ny fuel line cfg lang vs st = Ok (Some st') -> PS st'.
+Proof.
+  intros HP H. unfold rule_tokinizer in H. destruct (lang_rules cfg lang).
+  - eapply rule_loop_ps; eauto.
+  - now inversion H; subst.
+Qed.
+
+End Pipeline.
+
+(* ================================================================== *)
+(* H. statements about the model's entry points                         *)
+(* ================================================================== *)
+Local Open Scope N_scope.
+
+Section Top.
+Context {F : Type} {NF : Num F}.
+
+(* every line, every configuration and language: what the lexer passes (month parser, the
+   eleven regex parsers, aliases) leave in the collection satisfies the invariant *)
+Theorem lexer_inv (lx : lexdata) today (cfg : config F) lang line st1 st2 st3 :
+  language_tokinizer lx cfg lang line empty_state = Ok st1 ->
+  regex_tokinizer lx today cfg lang line st1 = Ok st2 ->
+  alias_tokinizer lx today cfg lang st2 = Ok st3 ->
+  Inv (N.of_nat (length line)) (ts_ui st3).
+Proof.
+  intros H1 H2 H3.
+  exact (lexer_ps line (Inv (N.of_nat (length line))) (ui_add_inv line)
+                  lx today cfg lang st1 st2 st3 (inv_nil _) H1 H2 H3).
+Qed.
+
+(* ... and the sort that update_token_variables starts with makes it well-formed *)
+Theorem lexer_sorted_wf (lx : lexdata) today (cfg : config F) lang line st1 st2 st3 :
+  language_tokinizer lx cfg lang line empty_state = Ok st1 ->
+  regex_tokinizer lx today cfg lang line st1 = Ok st2 ->
+  alias_tokinizer lx today cfg lang st2 = Ok st3 ->
+  WF line (ui_sort (ts_ui st3)) /\ Chain (N.of_nat (length line)) (ui_sort (ts_ui st3)).
+Proof.
+  intros H1 H2 H3. pose proof (lexer_inv lx today cfg lang line st1 st2 st3 H1 H2 H3) as HI.
+  assert (HC : Chain (N.of_nat (length line)) (ui_sort (ts_ui st3))).
+  { apply chain_of_sorted_inv; [now apply ui_sort_inv|apply ui_sort_sorted]. }
+  split; [now apply chain_wf|exact HC].
+Qed.
+
+Lemma in_line_sort n us : Forall (in_line n) us -> Forall (in_line n) (ui_sort us).
+Proof. intro H. eapply Permutation_Forall; [symmetry; apply ui_sort_perm|exact H]. Qed.
+
+(* the complete tokenizer incl. variables, units and rules: all positions are character
+   positions of the line, whatever byte offsets the later stages pass to update_tokens *)
+Theorem tokinize_in_line (lx : lexdata) ck (cfg : config F) lang vs line st toks :
+  tokinize lx ck cfg lang vs line = Ok (st, toks) ->
+  Forall (in_line (N.of_nat (length line))) (ts_ui st).
+Proof.
+  intro H. unfold tokinize in H.
+  set (n := N.of_nat (length line)).
+  destruct (language_tokinizer lx cfg lang line empty_state) as [st1|] eqn:E1; cbn [bind] in H; [|discriminate].
+  destruct (regex_tokinizer lx (ck_today ck) cfg lang line st1) as [st2|] eqn:E2; cbn [bind] in H; [|discriminate].
+  destruct (alias_tokinizer lx (ck_today ck) cfg lang st2) as [st3|] eqn:E3; cbn [bind] in H; [|discriminate].
+  destruct (unfuel (update_token_variables line vs st3)) as [st4|] eqn:E4; cbn [bind] in H; [|discriminate].
+  destruct (unfuel (dyn_loop (loop_fuel st4) line cfg vs st4)) as [st5|] eqn:E5; cbn [bind] in H; [|discriminate].
+  destruct (unfuel (rule_tokinizer _ _ _ line cfg lang vs st5)) as [st6|] eqn:E6; cbn [bind] in H; [|discriminate].
+  inversion H; subst. apply unfuel_ok in E4, E5, E6.
+  pose (P := Forall (in_line n)).
+  assert (Padd : forall us a b k, P us -> P (ui_add line us a b k)) by (intros; now apply ui_add_in_line).
+  assert (Psort : forall us, P us -> P (ui_sort us)) by (intros; now apply in_line_sort).
+  assert (Pupd : forall us a b k us', P us -> ui_update line us a b k = Ok us' -> P us')
+    by (intros; eapply ui_update_in_line; eauto).
+  assert (P3 : PS P st3).
+  { eapply (lexer_ps line P Padd); eauto. constructor. }
+  assert (P4 : PS P st4) by (eapply (update_token_variables_ps line P Psort Pupd); eauto).
+  assert (P5 : PS P st5) by (eapply (dyn_loop_ps line P Pupd); eauto).
+  eapply (rule_tokinizer_ps line P Pupd); eauto.
+Qed.
+
+Theorem execute_text_in_line (lx : lexdata) ck (cfg : config F) lang vs line lo vs' :
+  execute_text lx ck cfg lang vs line = Ok (Some lo, vs') ->
+  Forall (in_line (N.of_nat (length line))) (lo_ui lo).
+Proof.
+  intro H. unfold execute_text in H. destruct line as [|c0 rest]; [inversion H|].
+  set (line := c0 :: rest) in *.
+  destruct (tokinize lx ck cfg lang vs line) as [[st toks]|] eqn:Et; cbn [bind] in H; [|discriminate].
+  apply tokinize_in_line in Et.
+  destruct (ts_infos st); [inversion H|].
+  repeat match type of H with
+  | Ok _ = Ok _ => inversion H; subst; exact Et
+  | Panic _ = Ok _ => discriminate H
+  | bind ?x _ = Ok _ => destruct x eqn:?; cbn [bind] in H
+  | (let '(_, _) := ?x in _) = Ok _ => destruct x eqn:?
+  | match ?x with _ => _ end = Ok _ => destruct x eqn:?
+  end.
+Qed.
+
+End Top.
+
+(* ================================================================== *)
+(* I. the i8 index, the degenerate merge, and concrete runs             *)
+(* ================================================================== *)
+(* `index as i8`: a start token at index 128..255 is never merged (the list is returned as is) *)
+Lemma ui_update_i8_skip line us pst pen k i :
+  find_index (fun t => N.eqb (ui_start t) (get_position line pst)) us = Some i ->
+  (128 <= i < 256)%nat -> ui_update line us pst pen k = Ok us.
+Proof.
+  intros Hf Hi. unfold ui_update. rewrite Hf.
+  assert (E : as_i8 i = (Z.of_nat i - 256)%Z).
+  { unfold as_i8. rewrite Z.mod_small by lia. destruct (Z.ltb_spec (Z.of_nat i) 128); lia. }
+  rewrite E. destruct (Z.gtb_spec (Z.of_nat i - 256) (-1)); [lia|reflexivity].
+Qed.
+
+(* ... and from index 256 on it wraps: the block starts at i mod 256 *)
+Lemma as_i8_wrap i : (256 <= i < 384)%nat -> as_i8 i = (Z.of_nat i - 256)%Z.
+Proof.
+  intro Hi. unfold as_i8.
+  assert (E : (Z.of_nat i mod 256 = Z.of_nat i - 256)%Z).
+  { symmetry. apply Z.mod_unique with (q := 1%Z); lia. }
+  rewrite E. destruct (Z.ltb_spec (Z.of_nat i - 256) 128); lia.
+Qed.
+
+Definition tk (a b : N) (k : uikind) : uitoken := {| ui_start := a; ui_end := b; ui_kind := k |}.
+
+(* the function itself (outside the condition of ui_update_chain): with an empty or inverted
+   character span the merge inserts a malformed token, or the drain panics *)
+Lemma ui_update_degenerate_examples :
+  let line := s "ab cd" in
+  (* start = 3 > end = 2 : token (3,2) is inserted between the two *)
+  ui_update line [tk 0 2 UText; tk 3 5 UText] 3 2 UVariableUse
+    = Ok [tk 0 2 UText; tk 3 2 UVariableUse; tk 3 5 UText] /\
+  (* start = end = 2 on touching tokens: an empty token is inserted *)
+  ui_update line [tk 0 2 UText; tk 2 5 UText] 2 2 UVariableUse
+    = Ok [tk 0 2 UText; tk 2 2 UVariableUse; tk 2 5 UText] /\
+  (* start token two places after the end token: drain(2..1) panics *)
+  ui_update line [tk 0 1 UText; tk 1 2 UText; tk 2 3 UText] 2 1 UVariableUse = Panic 1701.
+Proof. cbv zeta. repeat split; vm_compute; reflexivity. Qed.
+
+(* ---- the real model at binary64: Api.execute with the regenerated configuration ---- *)
+Definition ui_of_line (lang text : str) : option (list uitoken) :=
+  match exec64 CK0 default_config lang text with
+  | Ok r => match er_lines r with
+            | [Some lo] => Some (lo_ui lo)
+            | _ => None end
+  | Panic _ => None
+  end.
+
+(* "ğüş 1 + 2 # ööö"  (15 characters, 21 bytes) *)
+Definition line_tr1 : str := [287;252;351;32;49;32;43;32;50;32;35;32;246;246;246]%N.
+(* "şu 15 ağustos 2021"  evaluated as Turkish *)
+Definition line_tr2 : str := [351;117;32;49;53;32;97;287;117;115;116;111;115;32;50;48;50;49]%N.
+(* "x = 15 ağustos"  (a variable definition: sort + update_tokens) *)
+Definition line_tr3 : str := [120;32;61;32;49;53;32;97;287;117;115;116;111;115]%N.
+
+Lemma real_examples :
+  ui_of_line (s "en") line_tr1
+    = Some [tk 0 3 UText; tk 4 5 UNumber; tk 6 7 UOperator; tk 8 9 UNumber; tk 10 15 UComment] /\
+  ui_of_line (s "tr") line_tr2
+    = Some [tk 0 2 UText; tk 3 5 UNumber; tk 6 13 UMonth; tk 14 18 UNumber] /\
+  ui_of_line (s "tr") line_tr3
+    = Some [tk 0 1 UVariableDefination; tk 2 3 UOperator; tk 4 6 UNumber; tk 7 14 UMonth] /\
+  (byte_length line_tr1 = 21 /\ length line_tr1 = 15%nat) /\
+  span_text line_tr1 (tk 4 5 UNumber) = s "1" /\ span_text line_tr1 (tk 6 7 UOperator) = s "+" /\
+  span_text line_tr1 (tk 10 15 UComment) = [35;32;246;246;246]%N /\
+  span_text line_tr2 (tk 6 13 UMonth) = [97;287;117;115;116;111;115]%N.
+Proof. repeat split; vm_compute; reflexivity. Qed.
+
+Lemma real_examples_wf :
+  (forall us, ui_of_line (s "en") line_tr1 = Some us -> WF line_tr1 us) /\
+  (forall us, ui_of_line (s "tr") line_tr2 = Some us -> WF line_tr2 us) /\
+  (forall us, ui_of_line (s "tr") line_tr3 = Some us -> WF line_tr3 us).
+Proof.
+  destruct real_examples as [E1 [E2 [E3 _]]].
+  split; [|split]; intros us H; [rewrite E1 in H|rewrite E2 in H|rewrite E3 in H];
+    inversion H; subst; apply wf_b_sound; vm_compute; reflexivity.
+Qed.
+
+(* ---- the remaining defect: matches found on a case-mapped copy of the line ---- *)
+(* "ıııı est 12:30": the zone is found in "IIII EST 12:30" (ı is 2 bytes, I is 1), its byte
+   offsets 5..8 are then read against the original line *)
+Definition line_cm1 : str := [305;305;305;305;32;101;115;116;32;49;50;58;51;48]%N.
+(* "İİİ 5 march 2020": the month is found in the lower-cased copy (İ is 2 bytes, i̇ is 3) *)
+Definition line_cm2 : str := [304;304;304;32;53;32;109;97;114;99;104;32;50;48;50;48]%N.
+
+(* the spans are well-formed but they are not the characters of the token *)
+Lemma casemap_misplaced :
+  ui_of_line (s "en") line_cm1 = Some [tk 2 4 USymbol1; tk 5 8 UText; tk 9 14 UDateTime] /\
+  span_text line_cm1 (tk 2 4 USymbol1) = [305;305]%N /\        (* "ıı", the zone word is at 5..8 *)
+  span_text line_cm1 (tk 5 8 UText) = s "est" /\
+  ui_of_line (s "en") line_cm2 = Some [tk 0 3 UText; tk 4 5 UNumber; tk 9 14 UMonth] /\
+  span_text line_cm2 (tk 9 14 UMonth) = s "ch 20" /\          (* the month word is at 6..11 *)
+  firstn 5 (skipn 6 line_cm2) = s "march".
+Proof. repeat split; vm_compute; reflexivity. Qed.
